@@ -67,6 +67,12 @@ CLAIMED = {
                 "reachable through their entry points; 65 registrations on the 64-entry table are refused; slot reuse (first/middle/last) works; owner "
                 "operations after destroy_sandbox are harmless.",
             "The symbolic input is the operation sequence; depth 3 (quick) / 4 (thorough).", "DESIGN.md 4/C13"),
+    "C12": (MC, "Foreign-ABI model backend with two live sandboxes: for callbacks long(long), int*(int*), opaque long(long), void(short,unsigned long) and "
+                "four registration histories (slot reuse, re-registration, overwrite), calling an entry point runs exactly the function registered for it, "
+                "once, with the executing sandbox, the converted argument (all values), and returns the converted result or aborts iff unrepresentable. "
+                "Bundled noop and dylib backends in both TLS configurations: five nested call trees (invoke->callback->invoke(other sandbox)->callback, then "
+                "another callback of the outer sandbox) dispatch exactly the registered functions with the right sandbox.",
+            "Guest code is stubs; nesting depth <=3.", "DESIGN.md 4/C12"),
     "C05": (MC, "p+n, p-n, +=, -=, ++/-- (pre/post), p[n], &p[n] for 8 pointee types x integer index types (plain, tainted, tainted_volatile) on LP32/LP16 "
                 "model backends with symbolic region base, pointer and full-width index: returns iff the exact 128-bit address p+/-n*s_guest is inside "
                 "the region and then returns exactly it, else aborts; null aborts.",
